@@ -20,17 +20,84 @@ func init() {
 		jobs: func(tier string) []job {
 			var js []job
 			js = append(js, J("socket", "VX_Smoke_Minus"))
-			// nMethod, nBody, nMetaPairs, nMetaKV, statusMode, nStatusStr, seq
-			for _, a := range [][]int{
-				{0, 0, 0, 0, 0, 0, 77}, {1, 1, 0, 0, 0, 0, 77}, {2, 2, 0, 0, 0, 0, -5}, {2, 1, 1, 1, 0, 0, 2147483647},
-				{0, 1, 1, 0, 0, 0, 1}, {1, 0, 2, 1, 0, 0, -2147483648},
-			} {
+			// nMethod, nBody, nMetaPairs, nMetaKV, statusMode, nStatusStr, seqMode(0 symbolic int32, 1 symbolic byte, else concrete)
+			shapes := [][]int{
+				{0, 0, 0, 0, 0, 0, 77}, {1, 1, 0, 0, 0, 0, 0}, {2, 2, 0, 0, 0, 0, -5}, {2, 1, 1, 1, 0, 0, 2147483647},
+				{0, 1, 1, 0, 0, 0, 1}, {0, 0, 0, 0, 1, 1, 9}, {1, 0, 2, 1, 0, 0, -2147483648}, {0, 0, 0, 0, 1, 0, 3},
+			}
+			if tier == "thorough" {
+				shapes = append(shapes, [][]int{{3, 3, 0, 0, 0, 0, 0}, {0, 4, 0, 0, 0, 0, 5}, {1, 0, 2, 2, 0, 0, 7}, {0, 0, 0, 0, 1, 2, 11}, {2, 0, 1, 2, 0, 0, 1}, {0, 0, 3, 1, 0, 0, 2}}...)
+			}
+			for _, a := range shapes {
 				js = append(js, J("socket", "VX_C05_RawRoundTrip", a...))
 			}
+			// pipeCode1, pipeCode2, nBody, nCuts, bufSize
+			streams := [][]int{{9, 2, 1, 1, 0}, {27, 0, 1, 1, 16}, {0, 0, 2, 1, 0}}
+			if tier == "thorough" {
+				streams = append(streams, [][]int{{9, 2, 1, 2, 0}, {27, 6, 2, 2, 16}, {1, 39, 1, 2, 16}}...)
+			}
+			for _, a := range streams {
+				js = append(js, J("socket", "VX_C05_RawStream", a...))
+			}
+			js = append(js, J("socket", "VX_C05_RawSizeIndependent", 1, 2), J("socket", "VX_C05_RawSizeIndependent", 3, 0))
+			return js
+		},
+		assumptions: append(append([]string{}, stdAssumptions...), "strconv Format/Parse of SYMBOLIC integers are summarised by the round-trip contract (stub S-STRCONV); concrete integers run the real strconv code"),
+		explanation: "symbolic execution of the real raw-protocol Pack/Unpack code (go/ssa rebuilt from /repo) with symbolic field contents and solver-chosen short-read positions; each vxAssert is an SMT query (unsat = holds for all values of the symbolic bytes within the shape)",
+		bounds:      "raw protocol only so far; method<=3 bytes, body<=4, meta<=3 pairs of <=2-byte key/value, status msg/cause<=2 bytes, seq symbolic int32 or samples incl. extremes, two frames with <=2 short reads at any offset, transfer pipes of <=3 filters",
+	})
+	registerCheck(&checkSpec{
+		id:    "C06",
+		dirs:  []string{"socket"},
+		level: "other",
+		jobs: func(tier string) []job {
+			var js []job
+			ns := []int{0, 1, 3, 4, 5, 6, 8}
+			if tier == "thorough" {
+				ns = []int{0, 1, 2, 3, 4, 5, 6, 7, 8, 9, 10, 12}
+			}
+			for _, n := range ns {
+				js = append(js, J("socket", "VX_C06_RawUnpackBytes", n, 24))
+			}
+			js = append(js, J("socket", "VX_C06_RawOversize", 24, 2), J("socket", "VX_C06_RawOversize", 100, 0))
 			return js
 		},
 		assumptions: stdAssumptions,
-		explanation: "symbolic execution of the real Pack/Unpack code (go/ssa rebuilt from /repo) with symbolic field contents; each vxAssert is an SMT query (unsat = holds for all values of the symbolic bytes within the shape)",
-		bounds:      "see harness instance list: method<=2 bytes, body<=2 bytes, meta<=2 pairs of <=1-byte key/value, concrete seq samples",
+		explanation: "the real raw-protocol Unpack is executed on a fully symbolic byte stream (every byte a solver variable) of each listed length followed by EOF; the engine checks every make([]byte,n) reached against the configured limit (n is a solver term), termination (instruction budget = unwinding assertion), and that a well-formed frame still decodes afterwards",
+		bounds:      "raw protocol parser; stream length <= 8 (quick) / 12 (thorough) bytes; limit 24; other protocols' parsers and the session read loop not yet covered",
+	})
+	registerCheck(&checkSpec{
+		id:    "C12",
+		dirs:  []string{"socket"},
+		level: "other",
+		jobs: func(tier string) []job {
+			js := []job{J("socket", "VX_C12_PipeInverts", 0, 2), J("socket", "VX_C12_PipeInverts", 1, 2), J("socket", "VX_C12_PipeInverts", 2, 2),
+				J("socket", "VX_C12_PipeOnWire", 1, 1), J("socket", "VX_C12_PipeOnWire", 2, 1), J("socket", "VX_C12_Unregistered"), J("socket", "VX_C12_TooLong")}
+			if tier == "thorough" {
+				js = append(js, J("socket", "VX_C12_PipeInverts", 3, 4), J("socket", "VX_C12_PipeInverts", 4, 1), J("socket", "VX_C12_PipeOnWire", 3, 2))
+			}
+			return js
+		},
+		assumptions: append(append([]string{}, stdAssumptions...), "filters are three harness-defined invertible, mutually non-commuting filters; the shipped gzip/md5 filters wrap library code (compress/gzip, crypto/md5) outside reach"),
+		explanation: "the real xfer.XferPipe (Append/IDs/OnPack/OnUnpack/check) and the raw protocol's pipe transport are executed symbolically; pipe = solver-chosen sequence of filter ids, payload symbolic",
+		bounds:      "pipes of length <= 2 (quick) / 4 (thorough) over 3 filters with repeats, payload <= 4 bytes, 255/256 boundary concrete",
+	})
+	registerCheck(&checkSpec{
+		id:    "C20",
+		dirs:  []string{"socket"},
+		level: "other",
+		jobs: func(tier string) []job {
+			js := []job{
+				J("socket", "VX_C20_Message", 1, 1, 0, 1), J("socket", "VX_C20_Message", 1, 1, 1, 1), J("socket", "VX_C20_Message", 1, 1, 2, 0), J("socket", "VX_C20_Message", 1, 1, 3, 1),
+				J("socket", "VX_C20_Args", 1, 1, 1), J("socket", "VX_C20_Args", 2, 1, 1), J("socket", "VX_C20_XferPipe", 2), J("socket", "VX_C20_ByteBuffer", 2, 1),
+			}
+			if tier == "thorough" {
+				js = append(js, J("socket", "VX_C20_Message", 2, 1, 0, 2), J("socket", "VX_C20_Message", 2, 2, 3, 2), J("socket", "VX_C20_Args", 2, 1, 2), J("socket", "VX_C20_Args", 1, 2, 3))
+			}
+			return js
+		},
+		assumptions: append(append([]string{}, stdAssumptions...), "sync.Pool hands back the most recently released object (the case the property is about); Pool's own behaviour is outside the claim"),
+		explanation: "differential symbolic execution: an object dirtied with symbolic field values is released, re-acquired from the pool and compared field by field and by its packed bytes with a freshly constructed one, before and after a solver-chosen next use",
+		bounds:      "message, utils.Args, xfer.XferPipe, utils.ByteBuffer so far (handler contexts and sockets need the root package harness); dirty strings <= 2 bytes, <= 2 metadata pairs, next-use wire input <= 3 bytes",
 	})
 }
